@@ -147,6 +147,10 @@ def make_dataset(ctx, rng, idx):
     df = pd.DataFrame({"rid": np.arange(n, dtype="int64")})
     base = rng.randrange(-5, 50)
     style = rng.choice(["sorted", "random", "blocks", "const"])
+    if idx == 10:
+        # directed (statistics mode "bounds-first-only"): a narrow column `i` whose bounds say nothing about the others
+        n, style, base = 30, "const", 40
+        df = pd.DataFrame({"rid": np.arange(n, dtype="int64")})
     if style == "sorted":
         iv = sorted(rng.randrange(base, base + 40) for _ in range(n))
     elif style == "blocks":
@@ -206,6 +210,8 @@ def mutate_stats(rng, pf, idx=None):
     if idx is not None and idx < 10:
         # every statistics layout is exercised whatever the seed (the first datasets also have stats on every column)
         mode = ["asis", "newstyle", "one-bound", "drop-nullcount", "drop-some"][idx % 5]
+    if idx == 10:
+        mode = "bounds-first-only"
     if mode == "asis":
         return mode
     for rg in pf.row_groups:
@@ -222,6 +228,10 @@ def mutate_stats(rng, pf, idx=None):
                 col.meta_data.statistics = None
             elif mode == "drop-nullcount":
                 s.null_count = None
+            elif mode == "bounds-first-only":
+                # only column `i` keeps its bounds; the others keep a Statistics struct holding the null count alone
+                if ".".join(col.meta_data.path_in_schema) != "i":
+                    s.max = s.min = s.max_value = s.min_value = None
             elif mode == "one-bound":
                 if rng.random() < 0.5:
                     s.max = None
@@ -322,6 +332,13 @@ def datasets(ctx, report):
                 directed.append([(pc, "in", [keys[0], keys[-1]])])
                 directed.append([(pc, "not in", [keys[0]])])
                 directed.append([(pc, "in", (keys[-1],)), ("i", ">=", int(full["i"].min()) if len(full) else 0)])
+        if smode == "bounds-first-only" and len(full):
+            # directed: an AND group over a column with bounds followed by columns without
+            imax = int(full["i"].max())
+            for c in ("f", "n", "s"):
+                for v in info[c]["pool"][:5]:
+                    directed.append([("i", "<=", imax), (c, "==", v)])
+                    directed.append([("i", "<=", imax), (c, ">=", v)])
         for pi in range(nprog + len(directed)):
             shape = rng.choice(["flat1", "flat2", "flat3", "or2", "or3"])
             if pi >= nprog:
